@@ -1,9 +1,9 @@
 #!/usr/bin/env python3
 """runs /repo's test suite (nextest, offline) and compares the passing set with BASELINE.json's stable_pass"""
-import json, re, subprocess, sys
+import json, os, re, subprocess, sys
 b = json.load(open("/root/.vp/BASELINE.json"))
 stable = set(b["stable_pass"])
-r = subprocess.run(["cargo", "nextest", "run", "--workspace", "--no-fail-fast", "--offline", "--test-threads", "8"], cwd="/repo", capture_output=True, text=True)
+r = subprocess.run(["cargo", "nextest", "run", "--workspace", "--no-fail-fast", "--offline", "--test-threads", "8"], cwd=os.environ.get("REPO_DIR", "/repo"), capture_output=True, text=True)
 out = r.stdout + r.stderr
 passed, failed = set(), set()
 for line in out.splitlines():
